@@ -36,8 +36,24 @@ use serde::{Deserialize, Serialize};
 /// string ordering.
 ///
 /// Apaths must start with `/` and not end with `/` unless they have length 1.
-#[derive(Clone, Debug, Eq, PartialEq, Serialize, Deserialize, Hash)]
+#[derive(Clone, Debug, Eq, PartialEq, Serialize, Hash)]
 pub struct Apath(String);
+
+/// Apaths read from an index are checked to be well-formed, like those made any other way:
+/// the rest of the code relies on it (the ordering, and joining them onto a destination path).
+impl<'de> Deserialize<'de> for Apath {
+    fn deserialize<D>(deserializer: D) -> Result<Self, D::Error>
+    where
+        D: serde::Deserializer<'de>,
+    {
+        let s = String::deserialize(deserializer)?;
+        if Apath::is_valid(&s) {
+            Ok(Apath(s))
+        } else {
+            Err(serde::de::Error::custom(format!("invalid apath: {s:?}")))
+        }
+    }
+}
 
 impl Apath {
     /// True if this string is a well-formed apath.
